@@ -164,7 +164,9 @@ def family_run(ctx, monitors, n_cases, profiles=PROFILES, procs=14, corpus=None,
     pjobs = [(ctx.seed + seed_offset, i, monitors, scratch) for i in range(n_parsed)]
     # lazily parsed runs: the selections rotate with the seed
     # (the mixed-set selection is expanded lazily in every run: one node must serve both of its roles)
+    nsel = len(travparsed.SELECTIONS)
     lazy_idx = ([travparsed.MIXED_SETS, travparsed.RESTRICTED_WORKER, travparsed.PARTLY_INCOMPATIBLE,
+                 travparsed.PARTLY_INCOMPATIBLE + nsel,         # the same with a skewed schedule (first worker slow)
                  travparsed.MIXED_SETS_4] if n_lazyparsed else []) + \
                [5 * (ctx.seed + seed_offset) + 3 * i for i in range(max(0, n_lazyparsed - 1))]
     pjobs += [(ctx.seed + seed_offset, i, monitors, scratch, True) for i in lazy_idx]
@@ -179,6 +181,8 @@ def family_run(ctx, monitors, n_cases, profiles=PROFILES, procs=14, corpus=None,
 
 
 def judge(ctx, results, monitors, label="trav"):
+    ctx.extra["max_picks_between_events"] = max([ctx.extra.get("max_picks_between_events", 0)] +
+                                                [r.get("spin_seen", 0) for r in results if "error" not in r])
     for r in results:
         if "error" in r:
             raise RuntimeError(f"traversal harness failed on case {r['ident']}: {r['error']}")
